@@ -122,6 +122,8 @@ package xmss
 // ---- WOTS / L-tree / authentication path (verification side) ----
 
 //@ lemma xmss.L_addrBytes_cong[XF] : forall A1:arr, A2:arr :: (forall k_ :: 0 <= k_ && k_ < 8 ==> A1[k_] == A2[k_]) ==> spec.addrBytes(A1) == spec.addrBytes(A2)
+//@ lemma xmss.L_xorArr_cong[XF] : forall X1:arr, X2:arr, M:arr :: (forall d_ :: 0 <= d_ && d_ < 64 ==> X1[d_] == X2[d_]) ==> spec.xorArr(X1, M, 64) == spec.xorArr(X2, M, 64)
+//@ lemma xmss.L_randHash_cong[XF] uses xmss.L_addrBytes_cong,xmss.L_xorArr_cong : forall hf, PS:arr, A1:arr, A2:arr, X1:arr, X2:arr :: (forall k_ :: 0 <= k_ && k_ < 7 ==> A1[k_] == A2[k_]) && (forall d_ :: 0 <= d_ && d_ < 64 ==> X1[d_] == X2[d_]) ==> spec.randHash(hf, PS, A1, X1) == spec.randHash(hf, PS, A2, X2)
 //@ lemma xmss.L_xorArr_cong32[XF] : forall X1:arr, X2:arr, M:arr :: (forall d_ :: 0 <= d_ && d_ < 32 ==> X1[d_] == X2[d_]) ==> spec.xorArr(X1, M, 32) == spec.xorArr(X2, M, 32)
 //@ lemma xmss.L_randF_cong[XF] uses xmss.L_addrBytes_cong,xmss.L_xorArr_cong32 : forall hf, PS:arr, A1:arr, A2:arr, X1:arr, X2:arr :: (forall k_ :: 0 <= k_ && k_ < 7 ==> A1[k_] == A2[k_]) && (forall d_ :: 0 <= d_ && d_ < 32 ==> X1[d_] == X2[d_]) ==> spec.randF(hf, PS, A1, X1) == spec.randF(hf, PS, A2, X2)
 //@ func genChain
@@ -160,19 +162,26 @@ package xmss
 //@   loop 1 invariant forall q :: q < 0 || q >= outputLen ==> output[q] == old(output[q])
 
 // WOTS+ public key from signature (RFC 8391 Algorithm 6): digit i is base-w digit i of the message for i < len1 and
-// base-w digit i-len1 of toByte(csum << (8 - (len2*lg w) % 8), ceil(len2*lg w / 8)) otherwise; chain i runs from the
+// base-w digit i-len1 of toByte(csum << (8 - (len2*lg w) % 8), ceil(len2*lg w / 8)) otherwise (for the three parameter
+// sets the shift is 4, 6, 8 for lg w = 4, 2, 8 and the byte count is 2: wShift / wBytes); chain i runs from the
 // digit to w-1 under the address with chain word i.
 //@ pred wShift(p) := 8 - ((p.len2 * p.logW) % 8)
 //@ pred wBytes(p) := (p.len2 * p.logW + 7) / 8
-//@ pred wCsum(msg, p) := (spec.wsum(msg, p.len1, p.logW, p.w) * spec.pow2(wShift(p))) % 4294967296
-//@ pred wDigit(msg, p, i) := ite(i < p.len1, spec.bwdig(msg, i, p.logW), spec.bwdig(spec.toByteN(wCsum(msg, p), wBytes(p)), 0, i - p.len1, p.logW))
+//@ pred wCsum(msg, p) := spec.wshift(spec.wsum(msg, p.len1, p.logW, p.w), wShift(p))
+//@ pred wDigit(msg, p, i) := spec.wdig(msg, i, p.logW, p.w, p.len1, wShift(p), wBytes(p))
 //@ lemma xmss.L_chain_cong[XF] induction k uses xmss.L_randF_cong : forall k, hf, PS:arr, A1:arr, A2:arr, X:arr, s :: (forall w_ :: 0 <= w_ && w_ < 6 ==> A1[w_] == A2[w_]) ==> spec.chain(hf, PS, A1, X, s, k) == spec.chain(hf, PS, A2, X, s, k)
-//@ pred wpkByte(hf, pubSeed, A, sig, msg, p, pp) := spec.chain(hf, spec.sub(pubSeed, 32), store(A, 5, pp/32), spec.sub(sig[32*(pp/32):], 32), wDigit(msg, p, pp/32), p.w - 1 - wDigit(msg, p, pp/32))[pp%32]
+//@ lemma xmss.L_wpkNode_congA[XF] uses xmss.L_chain_cong : forall hf, PS:arr, A1:arr, A2:arr, SG:arr, so, M:arr, mo, lw, w, len1, sh, nb, i :: (forall w_ :: 0 <= w_ && w_ < 5 ==> A1[w_] == A2[w_]) ==> spec.wpkNode(hf, PS, A1, SG, so, M, mo, lw, w, len1, sh, nb, i) == spec.wpkNode(hf, PS, A2, SG, so, M, mo, lw, w, len1, sh, nb, i)
+//@ pred wpkNode(hf, pubSeed, A, sig, msg, p, i) := spec.wpkNode(hf, spec.sub(pubSeed, 32), A, sig, msg, p.logW, p.w, p.len1, wShift(p), wBytes(p), i)
+//@ pred wpkByte(hf, pubSeed, A, sig, msg, p, pp) := wpkNode(hf, pubSeed, A, sig, msg, p, pp/32)[pp%32]
 //@ func wotsPKFromSig
 //@   use xmss.L_chain_cong
+//@   uselate xmss.L_wpkNode_congA
+//@   hide spec.chain
 //@   requires wotsOK(wotsParams) && len(pk) >= wotsParams.keySize && len(sig) >= wotsParams.keySize && len(msg) >= 32 && len(pubSeed) >= 32
 //@   ensures forall k_ :: 0 <= k_ && k_ < 5 ==> addr[k_] == old(addr[k_])
-//@   ensures[XF] hashfunction <= 2 ==> forall p_ :: 0 <= p_ && p_ < 32*wotsParams.len ==> pk[p_] == wpkByte(hashfunction, pubSeed, arr(old(addr)), sig, msg, wotsParams, p_)
+//@   ensures[XF] hashfunction <= 2 ==> forall i_, q_ :: 0 <= i_ && i_ < wotsParams.len && 0 <= q_ && q_ < 32 ==> pk[32*i_+q_] == wpkNode(hashfunction, pubSeed, arr(old(addr)), sig, msg, wotsParams, i_)[q_]
+//@   exit[XF] hashfunction <= 2 ==> forall i_, q_ :: 0 <= i_ && i_ < wotsParams.len && 0 <= q_ && q_ < 32 ==> pk[32*i_+q_] == wpkNode(hashfunction, pubSeed, arr(old(addr)), sig, msg, wotsParams, i_)[q_]
+//@   ensures[XF] hashfunction <= 2 ==> forall A2:arr :: (forall w_ :: 0 <= w_ && w_ < 5 ==> A2[w_] == old(addr[w_])) ==> forall i_, q_ :: 0 <= i_ && i_ < wotsParams.len && 0 <= q_ && q_ < 32 ==> pk[32*i_+q_] == wpkNode(hashfunction, pubSeed, A2, sig, msg, wotsParams, i_)[q_]
 //@   assigns pk, *addr
 //@   after misc.ToByteLittleEndian 1 assert[XF] forall d_ :: 0 <= d_ && d_ < wBytes(wotsParams) ==> cSumBytes[d_] == spec.toByteN(wCsum(msg, wotsParams), wBytes(wotsParams))[d_]
 //@   after xmss.CalcBaseW 2 assert[XF] forall k_ :: 0 <= k_ && k_ < XMSSWOTSLEN2 ==> cSumBaseW[k_] == spec.bwdig(spec.toByteN(wCsum(msg, wotsParams), wBytes(wotsParams)), 0, k_, XMSSWOTSLOGW)
@@ -184,36 +193,48 @@ package xmss
 //@   loop 3 invariant 0 <= i && i <= XMSSWOTSLEN && forall k_ :: 0 <= k_ && k_ < 5 ==> addr[k_] == old(addr[k_])
 //@   loop 3 invariant forall k_ :: 0 <= k_ && k_ < XMSSWOTSLEN ==> baseW[k_] <= XMSSWOTSW - 1
 //@   loop 3 invariant[XF] forall k_ :: 0 <= k_ && k_ < XMSSWOTSLEN ==> baseW[k_] == wDigit(msg, wotsParams, k_)
-//@   loop 3 assert[XF] hashfunction <= 2 ==> forall q_ :: 0 <= q_ && q_ < 32 ==> pk[32*i+q_] == spec.chain(hashfunction, spec.sub(pubSeed, 32), store(arr(old(addr)), 5, i), spec.sub(sig[32*i:], 32), wDigit(msg, wotsParams, i), wotsParams.w - 1 - wDigit(msg, wotsParams, i))[q_]
-//@   loop 3 invariant[XF] hashfunction <= 2 ==> forall p_ :: 0 <= p_ && p_ < 32*i ==> pk[p_] == wpkByte(hashfunction, pubSeed, arr(old(addr)), sig, msg, wotsParams, p_)
+//@   loop 3 assert[XF] offset == 32*i && XMSSN == 32
+//@   loop 3 assert[XF] hashfunction <= 2 ==> forall q_ :: 0 <= q_ && q_ < 32 ==> pk[32*i+q_] == wpkNode(hashfunction, pubSeed, arr(old(addr)), sig, msg, wotsParams, i)[q_]
+//@   loop 3 invariant[XF] hashfunction <= 2 ==> forall i_, q_ :: 0 <= i_ && i_ < i && 0 <= q_ && q_ < 32 ==> pk[32*i_+q_] == wpkNode(hashfunction, pubSeed, arr(old(addr)), sig, msg, wotsParams, i_)[q_]
 
+// Congruence lemmas (by induction): the recursive specifications depend on the address only through words 0..4 (the
+// higher words are overwritten at every step) and on byte strings only through their contents.
+//@ lemma xmss.L_lnode_congA[XF] induction t uses xmss.L_randHash_cong : forall t, hf, PS:arr, A1:arr, A2:arr, PK:arr, o, n, i :: (forall w_ :: 0 <= w_ && w_ < 5 ==> A1[w_] == A2[w_]) ==> spec.lnode(hf, PS, A1, PK, o, n, t, i) == spec.lnode(hf, PS, A2, PK, o, n, t, i)
+//@ lemma xmss.L_fold_congA[XF] induction j uses xmss.L_randHash_cong : forall j, hf, PS:arr, A1:arr, A2:arr, L:arr, idx, AU:arr, ao :: (forall w_ :: 0 <= w_ && w_ < 5 ==> A1[w_] == A2[w_]) ==> spec.fold(hf, PS, A1, L, idx, AU, ao, j) == spec.fold(hf, PS, A2, L, idx, AU, ao, j)
+//@ lemma xmss.L_lnode_congPK[XF] induction t uses xmss.L_randHash_cong : forall t, hf, PS:arr, A:arr, PK1:arr, o1, PK2:arr, o2, n, i :: n >= 1 && (forall p_ :: o1 <= p_ && p_ < o1 + 32*n ==> PK1[p_] == PK2[p_ - o1 + o2]) ==> spec.llen(n, t) >= 1 && spec.llen(n, t) <= n && (0 <= i && i < spec.llen(n, t) ==> spec.lnode(hf, PS, A, PK1, o1, n, t, i) == spec.lnode(hf, PS, A, PK2, o2, n, t, i))
+//@ lemma xmss.L_fold_congL[XF] induction j uses xmss.L_randHash_cong : forall j, hf, PS:arr, A:arr, L1:arr, L2:arr, idx, AU:arr, ao :: j >= 1 && (forall q_ :: 0 <= q_ && q_ < 32 ==> L1[q_] == L2[q_]) ==> spec.foldTop(hf, PS, A, L1, idx, AU, ao, j) == spec.foldTop(hf, PS, A, L2, idx, AU, ao, j)
+//@ lemma xmss.L_llen_table[XF] : spec.llenS(67, 0) == 67 && spec.llenS(67, 1) == 34 && spec.llenS(67, 2) == 17 && spec.llenS(67, 3) == 9 && spec.llenS(67, 4) == 5 && spec.llenS(67, 5) == 3 && spec.llenS(67, 6) == 2 && spec.llenS(67, 7) == 1 && spec.llenS(133, 0) == 133 && spec.llenS(133, 1) == 67 && spec.llenS(133, 2) == 34 && spec.llenS(133, 3) == 17 && spec.llenS(133, 4) == 9 && spec.llenS(133, 5) == 5 && spec.llenS(133, 6) == 3 && spec.llenS(133, 7) == 2 && spec.llenS(133, 8) == 1 && spec.llenS(34, 0) == 34 && spec.llenS(34, 1) == 17 && spec.llenS(34, 2) == 9 && spec.llenS(34, 3) == 5 && spec.llenS(34, 4) == 3 && spec.llenS(34, 5) == 2 && spec.llenS(34, 6) == 1
+//@ lemma xmss.L_lnode_cong2[XF] uses xmss.L_lnode_congA,xmss.L_lnode_congPK : forall t, hf, PS:arr, A1:arr, A2:arr, PK1:arr, o1, PK2:arr, o2, n, i :: n >= 1 && 0 <= i && i < spec.llen(n, t) && (forall w_ :: 0 <= w_ && w_ < 5 ==> A1[w_] == A2[w_]) && (forall p_ :: o1 <= p_ && p_ < o1 + 32*n ==> PK1[p_] == PK2[p_ - o1 + o2]) ==> spec.lnode(hf, PS, A1, PK1, o1, n, t, i) == spec.lnode(hf, PS, A2, PK1, o1, n, t, i) && spec.lnode(hf, PS, A2, PK1, o1, n, t, i) == spec.lnode(hf, PS, A2, PK2, o2, n, t, i) && spec.lnode(hf, PS, A1, PK1, o1, n, t, i) == spec.lnode(hf, PS, A2, PK2, o2, n, t, i)
+//@ lemma xmss.L_fold_cong2[XF] uses xmss.L_fold_congA,xmss.L_fold_congL : forall j, hf, PS:arr, A1:arr, A2:arr, L1:arr, L2:arr, idx, AU:arr, ao :: j >= 1 && (forall w_ :: 0 <= w_ && w_ < 5 ==> A1[w_] == A2[w_]) && (forall q_ :: 0 <= q_ && q_ < 32 ==> L1[q_] == L2[q_]) ==> spec.fold(hf, PS, A1, L1, idx, AU, ao, j) == spec.fold(hf, PS, A2, L1, idx, AU, ao, j) && spec.foldTop(hf, PS, A2, L1, idx, AU, ao, j) == spec.foldTop(hf, PS, A2, L2, idx, AU, ao, j) && spec.foldTop(hf, PS, A1, L1, idx, AU, ao, j) == spec.foldTop(hf, PS, A2, L2, idx, AU, ao, j)
+//@ lemma xmss.L_fold_cong3[XF] uses xmss.L_fold_cong2 : forall j, hf, PS:arr, A1:arr, A2:arr, L1:arr, L2:arr, idx, AU:arr, ao :: j >= 1 && (forall w_ :: 0 <= w_ && w_ < 5 ==> A1[w_] == A2[w_]) && (forall q_ :: 0 <= q_ && q_ < 32 ==> L1[q_] == L2[q_]) ==> spec.foldTop(hf, PS, A1, L1, idx, AU, ao, j) == spec.foldTop(hf, PS, A2, L2, idx, AU, ao, j)
 // L-tree (RFC 8391 Algorithm 8): the leaf is node 0 of the last level of spec.lnode over the WOTS+ public key.
 //@ pred ltab(len, t, l) := (len == 67 && ((t == 0 && l == 67) || (t == 1 && l == 34) || (t == 2 && l == 17) || (t == 3 && l == 9) || (t == 4 && l == 5) || (t == 5 && l == 3) || (t == 6 && l == 2) || (t == 7 && l == 1))) || (len == 133 && ((t == 0 && l == 133) || (t == 1 && l == 67) || (t == 2 && l == 34) || (t == 3 && l == 17) || (t == 4 && l == 9) || (t == 5 && l == 5) || (t == 6 && l == 3) || (t == 7 && l == 2) || (t == 8 && l == 1))) || (len == 34 && ((t == 0 && l == 34) || (t == 1 && l == 17) || (t == 2 && l == 9) || (t == 3 && l == 5) || (t == 4 && l == 3) || (t == 5 && l == 2) || (t == 6 && l == 1)))
 //@ pred ltreeT(len) := ite(len == 67, 7, ite(len == 133, 8, 6))
 //@ func lTree
 //@   nooverflow
 //@   use xmss.L_randHash_cong
+//@   uselate xmss.L_lnode_cong2
 //@   hide spec.randHash
 //@   requires wotsOK(params) && len(wotsPK) >= params.keySize && len(leaf) >= 32 && len(pubSeed) >= 32
 //@   ensures forall k_ :: 0 <= k_ && k_ < 5 ==> addr[k_] == old(addr[k_])
+//@   exit[XF] hashFunction <= 2 ==> forall q_ :: 0 <= q_ && q_ < 32 ==> leaf[q_] == spec.lnode(hashFunction, spec.sub(pubSeed, 32), arr(old(addr)), old(wotsPK), params.len, ltreeT(params.len), 0)[q_]
 //@   ensures[XF] hashFunction <= 2 ==> forall q_ :: 0 <= q_ && q_ < 32 ==> leaf[q_] == spec.lnode(hashFunction, spec.sub(pubSeed, 32), arr(old(addr)), old(wotsPK), params.len, ltreeT(params.len), 0)[q_]
+//@   ensures[XF] hashFunction <= 2 ==> forall A2:arr, PK2:arr, o2 :: (forall w_ :: 0 <= w_ && w_ < 5 ==> A2[w_] == old(addr[w_])) && (forall p_ :: 0 <= p_ && p_ < 32*params.len ==> old(wotsPK[p_]) == PK2[p_ + o2]) ==> forall q_ :: 0 <= q_ && q_ < 32 ==> leaf[q_] == spec.lnode(hashFunction, spec.sub(pubSeed, 32), A2, PK2, o2, params.len, ltreeT(params.len), 0)[q_]
 //@   assigns leaf[0:32], wotsPK, *addr
 //@   loop 1 invariant 1 <= l && l <= params.len && n == 32 && forall k_ :: 0 <= k_ && k_ < 5 ==> addr[k_] == old(addr[k_])
 //@   loop 1 invariant[XF] ltab(params.len, height, l) && l == spec.llen(params.len, height) && addr[5] == height
-//@   loop 1 invariant[XF] hashFunction <= 2 ==> forall p_ :: 0 <= p_ && p_ < 32*l ==> wotsPK[p_] == spec.lnode(hashFunction, spec.sub(pubSeed, 32), arr(old(addr)), old(wotsPK), params.len, height, p_/32)[p_%32]
+//@   loop 1 invariant[XF] hashFunction <= 2 ==> forall j_, q_ :: 0 <= j_ && j_ < l && 0 <= q_ && q_ < 32 ==> wotsPK[32*j_+q_] == spec.lnode(hashFunction, spec.sub(pubSeed, 32), arr(old(addr)), old(wotsPK), params.len, height, j_)[q_]
 //@   loop 1 decreases l
 //@   loop 2 invariant 0 <= i && i <= bound && bound == l / 2 && forall k_ :: 0 <= k_ && k_ < 5 ==> addr[k_] == old(addr[k_])
 //@   loop 2 invariant[XF] addr[5] == height
+//@   loop 2 invariant[XF] hashFunction <= 2 ==> forall j_, q_ :: 2*i <= j_ && j_ < l && 0 <= q_ && q_ < 32 ==> wotsPK[32*j_+q_] == spec.lnode(hashFunction, spec.sub(pubSeed, 32), arr(old(addr)), old(wotsPK), params.len, height, j_)[q_]
 //@   loop 2 assert[XF] hashFunction <= 2 ==> forall q_ :: 0 <= q_ && q_ < 32 ==> wotsPK[32*i+q_] == spec.lnode(hashFunction, spec.sub(pubSeed, 32), arr(old(addr)), old(wotsPK), params.len, height+1, i)[q_]
-//@   loop 2 invariant[XF] hashFunction <= 2 ==> forall p_ :: 0 <= p_ && p_ < 32*i ==> wotsPK[p_] == spec.lnode(hashFunction, spec.sub(pubSeed, 32), arr(old(addr)), old(wotsPK), params.len, height+1, p_/32)[p_%32]
-//@   loop 2 invariant[XF] hashFunction <= 2 ==> forall p_ :: 64*i <= p_ && p_ < 32*l ==> wotsPK[p_] == spec.lnode(hashFunction, spec.sub(pubSeed, 32), arr(old(addr)), old(wotsPK), params.len, height, p_/32)[p_%32]
+//@   loop 2 invariant[XF] hashFunction <= 2 ==> forall j_, q_ :: 0 <= j_ && j_ < i && 0 <= q_ && q_ < 32 ==> wotsPK[32*j_+q_] == spec.lnode(hashFunction, spec.sub(pubSeed, 32), arr(old(addr)), old(wotsPK), params.len, height+1, j_)[q_]
 
 // Functional contract of the authentication-path walk: root = fold(h), the Merkle fold of RFC 8391 Algorithm 13
 // (spec/00_core.smt2: fold, randHash, shrn).  The congruence lemmas say randHash depends on its address only through
 // words 0..6 and on its input only through its first 64 bytes; they are proved from the prelude definitions and
 // array extensionality, and randHash's definition is hidden inside validateAuthPath (the lemma is all it needs).
-//@ lemma xmss.L_xorArr_cong[XF] : forall X1:arr, X2:arr, M:arr :: (forall d_ :: 0 <= d_ && d_ < 64 ==> X1[d_] == X2[d_]) ==> spec.xorArr(X1, M, 64) == spec.xorArr(X2, M, 64)
-//@ lemma xmss.L_randHash_cong[XF] uses xmss.L_addrBytes_cong,xmss.L_xorArr_cong : forall hf, PS:arr, A1:arr, A2:arr, X1:arr, X2:arr :: (forall k_ :: 0 <= k_ && k_ < 7 ==> A1[k_] == A2[k_]) && (forall d_ :: 0 <= d_ && d_ < 64 ==> X1[d_] == X2[d_]) ==> spec.randHash(hf, PS, A1, X1) == spec.randHash(hf, PS, A2, X2)
 //@ pred bufIs(buffer, lo, X) := forall q_ :: 0 <= q_ && q_ < 32 ==> buffer[lo+q_] == X[q_]
 //@ pred bufAuth(buffer, lo, authpath, k) := forall q_ :: 0 <= q_ && q_ < 32 ==> buffer[lo+q_] == authpath[32*k+q_]
 
@@ -221,10 +242,13 @@ package xmss
 //@   props C04 C01 C06
 //@   pure
 //@   use xmss.L_randHash_cong
+//@   uselate xmss.L_fold_cong3
 //@   hide spec.randHash
 //@   requires n == 32 && 1 <= h && h <= 30 && len(root) >= 32 && len(leaf) >= 32 && len(authpath) >= h*32 && len(pub_seed) >= 32
 //@   ensures forall k_ :: 0 <= k_ && k_ < 5 ==> addr[k_] == old(addr[k_])
+//@   exit[XF] hashFunc <= 2 ==> bufIs(root, 0, spec.foldTop(hashFunc, spec.sub(pub_seed, 32), arr(old(addr)), spec.sub(old(leaf), 32), old(leafIdx), authpath, h))
 //@   ensures[XF] hashFunc <= 2 ==> bufIs(root, 0, spec.foldTop(hashFunc, spec.sub(pub_seed, 32), arr(old(addr)), spec.sub(old(leaf), 32), old(leafIdx), authpath, h))
+//@   ensures[XF] hashFunc <= 2 ==> forall A2:arr, L2:arr :: (forall w_ :: 0 <= w_ && w_ < 5 ==> A2[w_] == old(addr[w_])) && (forall q_ :: 0 <= q_ && q_ < 32 ==> L2[q_] == old(leaf[q_])) ==> bufIs(root, 0, spec.foldTop(hashFunc, spec.sub(pub_seed, 32), A2, L2, old(leafIdx), authpath, h))
 //@   assigns root[0:32], *addr
 //@   loop 1 invariant 0 <= j && j <= n && forall q_ :: 0 <= q_ && q_ < j ==> buffer[32+q_] == leaf[q_]
 //@   loop 2 invariant 0 <= j && j <= n && (forall q_ :: 0 <= q_ && q_ < 32 ==> buffer[32+q_] == leaf[q_]) && forall q_ :: 0 <= q_ && q_ < j ==> buffer[q_] == authpath[q_]
@@ -239,9 +263,24 @@ package xmss
 //@   loop 7 invariant 0 <= j && j <= n && authPathOffset == (i+1)*n
 //@   loop 7 invariant[XF] hashFunc <= 2 ==> bufIs(buffer, 0, spec.fold(hashFunc, spec.sub(pub_seed, 32), arr(old(addr)), spec.sub(old(leaf), 32), old(leafIdx), authpath, i+1)) && forall q_ :: 0 <= q_ && q_ < j ==> buffer[32+q_] == authpath[32*(i+1)+q_]
 
+// Closed-form specification of XMSS signature verification (RFC 8391 Algorithm 14 with the QRL conventions), as a
+// function of the inputs only: message hash, WOTS+ public key from the signature, L-tree leaf, Merkle fold.
+//@ lemma xmss.L_wsum_cong[XF] induction n : forall n, M1:arr, o1, M2:arr, o2, lw, w :: (forall q_ :: 0 <= q_ && q_ < 32 ==> M1[o1+q_] == M2[o2+q_]) && ((lw == 2 && n <= 128) || (lw == 4 && n <= 64) || (lw == 8 && n <= 32)) ==> spec.wsum(M1, o1, n, lw, w) == spec.wsum(M2, o2, n, lw, w)
+//@ lemma xmss.L_hmsg_cong[XF] : forall hf, K1:arr, K2:arr, M:arr, n, q :: (forall d_ :: 0 <= d_ && d_ < 96 ==> K1[d_] == K2[d_]) && n >= 0 ==> spec.xhash(hf, spec.corein(2, K1, 96, M, n), 128 + n, q) == spec.xhash(hf, spec.corein(2, K2, 96, M, n), 128 + n, q)
+//@ pred vIdx(sigMsg) := idxOf(sigMsg)
+//@ pred vHK(sigMsg, pk) := spec.cat(spec.cat(spec.sub(sigMsg[4:], 32), 32, spec.sub(pk, 32), 32), 64, spec.toByte32(vIdx(sigMsg)), 32)
+//@ pred vMH(hf, msg, sigMsg, pk) := spec.hashArr(hf, spec.corein(2, vHK(sigMsg, pk), 96, spec.sub(msg, len(msg)), len(msg)), 128 + len(msg), 32)
+//@ pred vWpk(hf, p, msg, sigMsg, pk) := spec.wpkArr(hf, spec.sub(pk[32:], 32), spec.addrTI(0, vIdx(sigMsg)), sigMsg[36:], vMH(hf, msg, sigMsg, pk), 0, p.logW, p.w, p.len1, wShift(p), wBytes(p))
+//@ pred vLeaf(hf, p, msg, sigMsg, pk) := spec.lnode(hf, spec.sub(pk[32:], 32), spec.addrTI(1, vIdx(sigMsg)), vWpk(hf, p, msg, sigMsg, pk), 0, p.len, ltreeT(p.len), 0)
+//@ pred vRoot(hf, p, msg, sigMsg, pk, h) := spec.foldTop(hf, spec.sub(pk[32:], 32), spec.addrTI(2, 0), vLeaf(hf, p, msg, sigMsg, pk), vIdx(sigMsg), sigMsg[36 + p.keySize:], h)
 //@ func xmssVerifySig
 //@   props C04
 //@   pure
+//@   hide spec.chain
+//@   use xmss.L_hmsg_cong
+//@   use xmss.L_chain_cong
+//@   use xmss.L_wsum_cong
+//@   use xmss.L_llen_table
 //@   requires wotsOK(wotsParams) && len(pk) == 64 && 1 <= h && h <= 30 && len(sigMsg) >= 36 + wotsParams.keySize + 32*h
 //@   exit[C04] result <==> (len(msg) + 128 <= 4294967295 && forall k_ :: 0 <= k_ && k_ < 32 ==> root[k_] == pk[k_])
 //@   exit[C04] idx == idxOf(sigMsg) && pubSeed[0:32] == pk[32:64]
@@ -250,6 +289,27 @@ package xmss
 //@   exit[C04] result ==> lTreeAddr[0] == 0 && lTreeAddr[1] == 0 && lTreeAddr[2] == 0 && lTreeAddr[3] == 1 && lTreeAddr[4] == idx
 //@   exit[C04] result ==> nodeAddr[0] == 0 && nodeAddr[1] == 0 && nodeAddr[2] == 0 && nodeAddr[3] == 2
 //@   exit[C04] result ==> sigMsgOffset == 36 + wotsParams.keySize && n == 32
+//@   ensures[C04] hashFunction <= 2 ==> (result <==> (len(msg) + 128 <= 4294967295 && forall k_ :: 0 <= k_ && k_ < 32 ==> vRoot(hashFunction, wotsParams, msg, sigMsg, pk, h)[k_] == pk[k_]))
+//@   after misc.ToByteLittleEndian 1 assert[C04] idx == idxOf(sigMsg) && n == 32
+//@   after misc.ToByteLittleEndian 1 assert[C04] forall d_ :: 0 <= d_ && d_ < 32 ==> hashKey[d_] == sigMsg[4+d_] && hashKey[32+d_] == pk[d_] && hashKey[64+d_] == spec.byte32(idxOf(sigMsg), 31-d_)
+//@   after misc.ToByteLittleEndian 1 assert[C04] forall d_ :: 0 <= d_ && d_ < 32 ==> hashKey[d_] == vHK(sigMsg, pk)[d_] from 2..2
+//@   after misc.ToByteLittleEndian 1 assert[C04] forall d_ :: 32 <= d_ && d_ < 64 ==> hashKey[d_] == vHK(sigMsg, pk)[d_] from 2..2
+//@   after misc.ToByteLittleEndian 1 assert[C04] forall d_ :: 64 <= d_ && d_ < 96 ==> hashKey[d_] == vHK(sigMsg, pk)[d_] from 2..2
+//@   after misc.ToByteLittleEndian 1 assert[C04] forall d_ :: 0 <= d_ && d_ < 96 ==> hashKey[d_] == vHK(sigMsg, pk)[d_] from 3..5
+//@   after xmss.hMsg 1 assert[C04] !iserr(err) && hashFunction <= 2 ==> forall q_ :: 0 <= q_ && q_ < 32 ==> msgHash[q_] == vMH(hashFunction, msg, sigMsg, pk)[q_]
+//@   after xmss.wotsPKFromSig 1 assert[C04] spec.sub(pubSeed, 32) == spec.sub(pk[32:], 32) && sigMsgOffset == 36
+//@   after xmss.wotsPKFromSig 1 assert[C04] hashFunction <= 2 ==> spec.wsum(msgHash, wotsParams.len1, wotsParams.logW, wotsParams.w) == spec.wsum(vMH(hashFunction, msg, sigMsg, pk), 0, wotsParams.len1, wotsParams.logW, wotsParams.w)
+//@   after xmss.wotsPKFromSig 1 assert[C04] hashFunction <= 2 ==> forall i_ :: 0 <= i_ && i_ < wotsParams.len1 ==> spec.bwdig(msgHash, i_, wotsParams.logW) == spec.bwdig(vMH(hashFunction, msg, sigMsg, pk), 0, i_, wotsParams.logW)
+//@   after xmss.wotsPKFromSig 1 assert[C04] hashFunction <= 2 ==> forall i_ :: 0 <= i_ && i_ < wotsParams.len ==> wDigit(msgHash, wotsParams, i_) == spec.wdig(vMH(hashFunction, msg, sigMsg, pk), 0, i_, wotsParams.logW, wotsParams.w, wotsParams.len1, wShift(wotsParams), wBytes(wotsParams)) from 2..3
+//@   after xmss.wotsPKFromSig 1 assert[C04] hashFunction <= 2 ==> forall i_, q_ :: 0 <= i_ && i_ < wotsParams.len && 0 <= q_ && q_ < 32 ==> wotsPK[32*i_+q_] == wpkNode(hashFunction, pubSeed, spec.addrTI(0, vIdx(sigMsg)), sigMsg[36:], msgHash, wotsParams, i_)[q_]
+//@   after xmss.wotsPKFromSig 1 assert[C04] hashFunction <= 2 ==> forall i_ :: 0 <= i_ && i_ < wotsParams.len ==> wpkNode(hashFunction, pubSeed, spec.addrTI(0, vIdx(sigMsg)), sigMsg[36:], msgHash, wotsParams, i_) == spec.wpkNode(hashFunction, spec.sub(pk[32:], 32), spec.addrTI(0, vIdx(sigMsg)), sigMsg[36:], vMH(hashFunction, msg, sigMsg, pk), 0, wotsParams.logW, wotsParams.w, wotsParams.len1, wShift(wotsParams), wBytes(wotsParams), i_) from 1..4
+//@   after xmss.wotsPKFromSig 1 assert[C04] hashFunction <= 2 ==> forall i_, q_ :: 0 <= i_ && i_ < wotsParams.len && 0 <= q_ && q_ < 32 ==> wotsPK[32*i_+q_] == spec.wpkNode(hashFunction, spec.sub(pk[32:], 32), spec.addrTI(0, vIdx(sigMsg)), sigMsg[36:], vMH(hashFunction, msg, sigMsg, pk), 0, wotsParams.logW, wotsParams.w, wotsParams.len1, wShift(wotsParams), wBytes(wotsParams), i_)[q_] from 5..6
+//@   after xmss.wotsPKFromSig 1 assert[C04] hashFunction <= 2 ==> forall p_ :: 0 <= p_ && p_ < 32*wotsParams.len ==> wotsPK[p_] == vWpk(hashFunction, wotsParams, msg, sigMsg, pk)[p_] from 7..7
+//@   after xmss.lTree 1 assert[C04] ltab(wotsParams.len, ltreeT(wotsParams.len), 1) && spec.llen(wotsParams.len, ltreeT(wotsParams.len)) == 1
+//@   after xmss.lTree 1 assert[C04] hashFunction <= 2 ==> forall q_ :: 0 <= q_ && q_ < 32 ==> pkHash[q_] == vLeaf(hashFunction, wotsParams, msg, sigMsg, pk)[q_]
+//@   after xmss.validateAuthPath 1 assert[C04] sigMsgOffset == 36 + wotsParams.keySize && idx == idxOf(sigMsg) && spec.sub(pubSeed, 32) == spec.sub(pk[32:], 32)
+//@   after xmss.validateAuthPath 1 assert[C04] hashFunction <= 2 ==> forall q_ :: 0 <= q_ && q_ < 32 ==> root[q_] == spec.foldTop(hashFunction, spec.sub(pubSeed, 32), spec.addrTI(2, 0), vLeaf(hashFunction, wotsParams, msg, sigMsg, pk), idx, sigMsg[sigMsgOffset:], h)[q_]
+//@   after xmss.validateAuthPath 1 assert[C04] hashFunction <= 2 ==> forall q_ :: 0 <= q_ && q_ < 32 ==> root[q_] == vRoot(hashFunction, wotsParams, msg, sigMsg, pk, h)[q_]
 //@   loop 1 invariant 0 <= i && i <= n
 //@   loop 1 invariant[C04] forall k_ :: 0 <= k_ && k_ < i ==> root[k_] == pk[k_]
 
